@@ -67,8 +67,8 @@ def run(ctx):
             ctx.sample({"summary_grid_case": cases[7]})
     # 3. impl -> spec: long histories
     tp = ctx.path("trk.ndjson")
-    n, steps = (24, 5000) if thorough else (8, 700)
-    s = ctx.harness(["c13", "record", "--seed", ctx.seed, "--chains", n, "--steps", steps, "--out", tp], timeout=1800)[-1]
+    n, steps, long_steps = (24, 5000, 5000) if thorough else (8, 700, 2600)
+    s = ctx.harness(["c13", "record", "--seed", ctx.seed, "--chains", n, "--steps", steps, "--long-steps", long_steps, "--out", tp], timeout=1800)[-1]
     ok, matched, run_ = ctx.validate_trace("Trace_Trackers", tp, timeout=3000)
     lines = open(tp).read().splitlines()
     ctx.cov["evaluations"] += s["events"]
